@@ -22,6 +22,7 @@ import (
 	"testing"
 
 	"github.com/icon-project/goloop/common"
+	"github.com/icon-project/goloop/common/crypto"
 	"github.com/icon-project/goloop/common/db"
 	"github.com/icon-project/goloop/service/state"
 
@@ -33,6 +34,9 @@ type data struct {
 	Bal    int            `json:"bal"`
 	St     map[string]int `json:"st"`
 	Ct     bool           `json:"ct"`
+	Bl     bool           `json:"bl"`
+	Nx     int            `json:"nx"`
+	Cur    int            `json:"cur"`
 	Empty  bool           `json:"empty"`
 }
 
@@ -66,6 +70,19 @@ func (w *world) val(v int) []byte {
 		return []byte{0x11, byte(len(w.salt))}
 	}
 	return bytes.Repeat([]byte{0xA0 + byte(v)}, 48)
+}
+func (w *world) code(c int) []byte   { return []byte(fmt.Sprintf("contract-code-%s-%d", w.salt, c)) }
+func (w *world) txHash(c int) []byte { return []byte(fmt.Sprintf("deploy-tx-%d", c)) }
+func (w *world) codeID(cs state.ContractSnapshot) int {
+	if cs == nil {
+		return 0
+	}
+	for c := 1; c <= 3; c++ {
+		if bytes.Equal(cs.CodeHash(), crypto.SHA3Sum256(w.code(c))) {
+			return c
+		}
+	}
+	return -1
 }
 func (w *world) abs(bs []byte) int {
 	for v := 0; v <= 3; v++ {
@@ -120,6 +137,9 @@ func (r *runner) project(as state.AccountSnapshot) (data, error) {
 		d.St[k] = a
 	}
 	d.Ct = as.IsContract()
+	d.Bl = as.IsBlocked()
+	d.Nx = r.w.codeID(as.NextContract())
+	d.Cur = r.w.codeID(as.Contract())
 	d.Empty = as.IsEmpty()
 	return d, nil
 }
@@ -128,7 +148,7 @@ func same(a, b data, viaSnapshot bool) bool {
 	if viaSnapshot && (a.Absent || b.Absent) {
 		return a.Absent == b.Absent
 	}
-	if a.Bal != b.Bal || a.Ct != b.Ct || a.Empty != b.Empty {
+	if a.Bal != b.Bal || a.Ct != b.Ct || a.Empty != b.Empty || a.Bl != b.Bl || a.Nx != b.Nx || a.Cur != b.Cur {
 		return false
 	}
 	for k, v := range b.St {
@@ -152,7 +172,7 @@ func sigOf(m map[string]data, accts []string) string {
 			ks = append(ks, k)
 		}
 		sort.Strings(ks)
-		fmt.Fprintf(&sb, "%s:%d,%v", a, d.Bal, d.Ct)
+		fmt.Fprintf(&sb, "%s:%d,%v,%v,%d,%d", a, d.Bal, d.Ct, d.Bl, d.Nx, d.Cur)
 		for _, k := range ks {
 			fmt.Fprintf(&sb, ",%s=%d", k, d.St[k])
 		}
@@ -166,6 +186,16 @@ func (r *runner) apply(ws state.WorldState, a string, d data) {
 	as.SetBalance(big.NewInt(int64(d.Bal)))
 	if d.Ct {
 		as.InitContractAccount(r.w.owner())
+	}
+	if d.Bl {
+		as.SetBlock(true)
+	}
+	if d.Cur != 0 {
+		as.DeployContract(r.w.code(d.Cur), state.JavaEE, "application/java", nil, r.w.txHash(d.Cur))
+		as.AcceptContract(r.w.txHash(d.Cur), []byte("audit"))
+	}
+	if d.Nx != 0 {
+		as.DeployContract(r.w.code(d.Nx), state.JavaEE, "application/java", nil, r.w.txHash(d.Nx))
 	}
 	ks := make([]string, 0)
 	for k := range d.St {
@@ -250,6 +280,22 @@ func (r *runner) run(steps []step) int {
 			ok := r.ws.GetAccountState(r.w.acct(s.A)).InitContractAccount(r.w.owner())
 			if ok != (s.Res == 1) {
 				r.viol("ws:initcontract:result", "%s: InitContractAccount(%s) returned %v, spec says %v", at, s.A, ok, s.Res == 1)
+			}
+		case "setblock":
+			r.ws.GetAccountState(r.w.acct(s.A)).SetBlock(s.V == 1)
+		case "deploy":
+			old, err := r.ws.GetAccountState(r.w.acct(s.A)).DeployContract(r.w.code(s.V), state.JavaEE, "application/java", nil, r.w.txHash(s.V))
+			want := []byte(nil)
+			if s.Res != 0 {
+				want = r.w.txHash(s.Res)
+			}
+			if err != nil || !bytes.Equal(old, want) {
+				r.viol("ws:deploy:result", "%s: DeployContract(%s, code %d) returned %q (%v), spec says the deployment of code %d", at, s.A, s.V, old, err, s.Res)
+			}
+		case "accept":
+			err := r.ws.GetAccountState(r.w.acct(s.A)).AcceptContract(r.w.txHash(s.V), []byte("audit"))
+			if (err == nil) != (s.Res == 1) {
+				r.viol("ws:accept:result", "%s: AcceptContract(%s) returned %v, spec says accepted=%v", at, s.A, err, s.Res == 1)
 			}
 		case "touch":
 			r.ws.GetAccountState(r.w.acct(s.A))
